@@ -171,7 +171,7 @@ static void step14(int code) {
 }
 
 /* closure with the Darwin glue (mapping-related lines) and the periodic tick */
-static dw_iface D;
+static dw_iface D, D2;          /* D2: the engine of a second interface; it never receives a frame, only the periodic tick */
 static struct { uint8_t s; uint8_t in_age; uint8_t frame_age; uint8_t had_frame; } M14;   /* ages in s, capped */
 static const int FR14[] = {0x00, 0x02, 0x08, 0x04, 0x06, 0x0B, 0x09, 0x01, 0x05, 0x0D, 0xFF};
 static const int IN14[] = {-1, -2, -3};
@@ -183,9 +183,10 @@ static void c14_name(int ev, char *buf, size_t cap) {
     if (ev < NFR) snprintf(buf, cap, "frame opcode 0x%02x", FR14[ev]);
     else if (ev < NFR + NIN) snprintf(buf, cap, "internal input %d", IN14[ev - NFR]);
     else if (ev < NFR + NIN + NADV) snprintf(buf, cap, "advance %d s", ADV14[ev - NFR - NIN]);
-    else snprintf(buf, cap, "tick");
+    else if (ev == NFR + NIN + NADV) snprintf(buf, cap, "tick");
+    else snprintf(buf, cap, "tick of the other interface's engine");
 }
-static void c14_root(void) { dw_init(&D, 0); D.mapping_only = 1; memset(&M14, 0, sizeof M14); M14.s = Q_IDLE; }
+static void c14_root(void) { dw_init(&D, 0); D.mapping_only = 1; dw_init(&D2, 1); D2.mapping_only = 1; memset(&M14, 0, sizeof M14); M14.s = Q_IDLE; }
 static void check_step14(int in, const char *what) {
     automata *a = D.mappingAutomata;
     int got = abs14(a->current_state);
@@ -221,6 +222,8 @@ static void c14_apply(int ev) {
         W.now_ms += (uint64_t)a * 1000;
         M14.in_age = (uint8_t)(M14.in_age + a > 40 ? 40 : M14.in_age + a);
         M14.frame_age = (uint8_t)(M14.frame_age + a > 40 ? 40 : M14.frame_age + a);
+    } else if (ev == NFR + NIN + NADV + 1) {
+        dw_tick(&D2);                    /* daemons tick every interface; another engine's tick must not matter here */
     } else {
         dw_tick(&D);
         mapping_state *ms = D.mappingAutomata->extra;
@@ -275,7 +278,7 @@ int main(int argc, char **argv) {
     e1_cfg ccfg;
     if (mode == 15) ccfg = (e1_cfg){ .nev = 11, .ev_name = c15_name, .apply = c15_apply, .root_setup = c15_root, .model = &M15, .model_size = sizeof M15,
                                      .extra_key = c15_key, .no_heap_key = 1, .no_model_key = 1, .obs_hash = c15_obs, .deadline_s = A.deadline, .prune_on_violation = 1 };
-    else ccfg = (e1_cfg){ .nev = NFR + NIN + NADV + 1, .ev_name = c14_name, .apply = c14_apply, .enabled = c14_enabled, .root_setup = c14_root, .model = &M14, .model_size = sizeof M14,
+    else ccfg = (e1_cfg){ .nev = NFR + NIN + NADV + 2, .ev_name = c14_name, .apply = c14_apply, .enabled = c14_enabled, .root_setup = c14_root, .model = &M14, .model_size = sizeof M14,
                           .extra_key = c14_key, .no_heap_key = 1, .no_model_key = 1, .obs_hash = c14_obs, .deadline_s = A.deadline, .prune_on_violation = 1,
                           .max_depth = A.depth > 0 ? (int)A.depth : 0 };
     if (A.replay) { A.verbose = 1; return e1_replay_file(closure ? &ccfg : &stepcfg, A.replay); }
